@@ -23,10 +23,11 @@ impl TopNExecutor {
     #[try_stream(boxed, ok = DataChunk, error = ExecutorError)]
     pub async fn execute(self, child: BoxedExecutor) {
         // initialize heap
-        let heap_size = self.offset + self.limit;
+        // An absent LIMIT arrives as `usize::MAX / 2`: the bound must not overflow and must not
+        // be pre-allocated (the heap grows with the rows actually kept).
+        let heap_size = self.offset.saturating_add(self.limit);
         let orders = Evaluator::new(&self.order_keys).orders();
-        let mut heap =
-            BinaryHeap::with_capacity_by(heap_size, |row1, row2| cmp(row1, row2, &orders));
+        let mut heap = BinaryHeap::new_by(|row1, row2| cmp(row1, row2, &orders));
 
         // evaluate order keys and append the original rows
         // chunks = keys || child
